@@ -22,7 +22,8 @@ META = {
     "program of <= 4 (thorough 5) whole lines (text, for/if/else/set statements, comments, two indentations) renders "
     "the same in block form and in line-statement / line-comment form in a trim_blocks+lstrip_blocks environment; "
     "(iii) jinja2.Template(src, **opts) equals Environment(**opts).from_string(src) over a 288-point option grid; "
-    "(iv) every overlay chain of <= 3 single-option steps renders like a fresh environment with the final options and "
+    "(iv) every overlay chain of <= 3 single-option steps renders (by name through a DictLoader, i.e. with the template "
+    "cache in play, and through from_string) like a fresh environment with the final options and "
     "leaves its ancestors unchanged; (v) every history of <= 4 (thorough 5) operations over {create environment, render, "
     "Template(), overlay} on pairs of configurations that differ from a base in exactly one lexer-cache-key field, "
     "plus an eviction phase with 52 configurations and 11 spontaneous environments: each render equals the render of "
@@ -443,17 +444,27 @@ def overlay_shard(arg) -> core.Part:
     steps = [(i, b) for i in range(len(OV_FIELDS)) for b in (0, 1)]
     ref = {}
 
-    def reference(bits):
+    def mkenv(bits):
+        return jinja2.Environment(loader=jinja2.DictLoader({"t": OV_SRC}), **ov_kwargs(bits))
+
+    def observe(env, both):
+        # by name through the loader (template cache in play) and, for the final environment, from_string too
+        o = [outcome(lambda: env.get_template("t").render())]
+        if both:
+            o.append(outcome(lambda: env.from_string(OV_SRC).render()))
+        return tuple(o)
+
+    def reference(bits, both):
         if bits not in ref:
             jinja2.clear_caches()
-            ref[bits] = outcome(lambda: jinja2.Environment(**ov_kwargs(bits)).from_string(OV_SRC).render())
-        return ref[bits]
+            ref[bits] = observe(mkenv(bits), True)
+        return ref[bits] if both else ref[bits][:1]
 
     for n in range(1, maxlen + 1):
         for chain in itertools.product(steps, repeat=n):
             jinja2.clear_caches()
-            envs = [(tuple(base), jinja2.Environment(**ov_kwargs(base)))]
-            first = outcome(lambda: envs[0][1].from_string(OV_SRC).render())  # the parent is used before it is overlaid
+            envs = [(tuple(base), mkenv(base))]
+            first = observe(envs[0][1], False)  # the parent loads the template before it is overlaid
             for i, b in chain:
                 bits, env = envs[-1]
                 nb = bits[:i] + (b,) + bits[i + 1:]
@@ -461,23 +472,24 @@ def overlay_shard(arg) -> core.Part:
             p.evals += 1
             p.count("iv/chains")
             bad = None
-            if first != reference(tuple(base)):
-                bad = ("base-before", tuple(base), first)
+            if first != reference(tuple(base), False):
+                bad = ("base-before", tuple(base), first, False)
             check = envs[::-1] if recheck_all else [envs[-1], envs[0]]
             for bits, env in check:
                 if bad:
                     break
-                got = outcome(lambda: env.from_string(OV_SRC).render())
-                if got != reference(bits):
-                    bad = ("final" if env is envs[-1][1] else "ancestor-after", bits, got)
+                final = env is envs[-1][1]
+                got = observe(env, final)
+                if got != reference(bits, final):
+                    bad = ("final" if final else "ancestor-after", bits, got, final)
             p.sig(("ov", envs[-1][0], len(chain)))
             if bad:
                 names = [OV_FIELDS[i][0] for i, _ in chain]
                 p.violation(f"C13/overlay/{bad[0]}/{'+'.join(sorted(set(names)))}", {
                     "msg": f"base options {ov_kwargs(tuple(base))!r}, overlay steps "
                            f"{[ov_kwargs(tuple(base[:i]) + (b,) + tuple(base[i + 1:]), only={i}) for i, b in chain]!r}: "
-                           f"environment with options {ov_kwargs(bad[1])!r} renders {bad[2]!r}, a fresh environment with "
-                           f"these options renders {reference(bad[1])!r}",
+                           f"environment with options {ov_kwargs(bad[1])!r} renders (get_template[, from_string]) {bad[2]!r}, "
+                           f"a fresh environment with these options renders {reference(bad[1], bad[3])!r}",
                     "script": "from checks import c13\n"
                               f"c13.replay_overlay({tuple(base)!r}, {chain!r})\n",
                 })
@@ -490,9 +502,16 @@ def replay_overlay(base, chain):
 
     core.setup_repo()
     jinja2.clear_caches()
-    env = jinja2.Environment(**ov_kwargs(base))
+
+    def mkenv(bits):
+        return jinja2.Environment(loader=jinja2.DictLoader({"t": OV_SRC}), **ov_kwargs(bits))
+
+    def observe(env):
+        return (outcome(lambda: env.get_template("t").render()), outcome(lambda: env.from_string(OV_SRC).render()))
+
+    env = mkenv(base)
     bits = tuple(base)
-    print("base", ov_kwargs(bits), repr(env.from_string(OV_SRC).render()))
+    print("base", ov_kwargs(bits), observe(env))
     envs = [(bits, env)]
     for i, b in chain:
         bits = bits[:i] + (b,) + bits[i + 1:]
@@ -500,9 +519,8 @@ def replay_overlay(base, chain):
         envs.append((bits, env))
         print("overlay", ov_kwargs(bits, only={i}))
     for bits, env in envs:
-        got = outcome(lambda: env.from_string(OV_SRC).render())
-        fresh = outcome(lambda: jinja2.Environment(**ov_kwargs(bits)).from_string(OV_SRC).render())
-        print(ov_kwargs(bits), "\n   chain env:", got, "\n   fresh env:", fresh)
+        print(ov_kwargs(bits), "\n   chain env (get_template, from_string):", observe(env),
+              "\n   fresh env (get_template, from_string):", observe(mkenv(bits)))
 
 
 # ---------------------------------------------------------------- (v) cache interference
